@@ -56,6 +56,7 @@ type mapAccess struct {
 	task  int
 	clock uint32
 	pc    uintptr
+	id    uintptr
 }
 
 type mapState struct {
@@ -140,6 +141,21 @@ func MapW[M ~map[K]V, K comparable, V any](m M) M {
 	return m
 }
 
+// VarW marks a write to a variable that goroutine literals of the code under test assign to (the
+// instrumenter finds them: variables declared outside a `go func() {...}` literal and assigned inside
+// it). Two writes to such a variable that nothing orders are a data race - a lost `append`, a torn
+// value - whatever this run's schedule was.
+func VarW[T any](p *T) {
+	if s := S(); s != nil && !s.hbOff && !s.ending && p != nil {
+		id := uintptr(unsafe.Pointer(p))
+		if s.hbVars == nil {
+			s.hbVars = map[uintptr]bool{}
+		}
+		s.hbVars[id] = true
+		s.mapAccess(id, true)
+	}
+}
+
 func (s *Sim) mapAccess(id uintptr, write bool) {
 	t := s.cur
 	if t == nil {
@@ -159,7 +175,7 @@ func (s *Sim) mapAccess(id uintptr, write bool) {
 	s.MapAccesses++
 	var pcs [1]uintptr
 	runtime.Callers(3, pcs[:])
-	me := mapAccess{task: t.ID, clock: t.vc[t.ID], pc: pcs[0]}
+	me := mapAccess{task: t.ID, clock: t.vc[t.ID], pc: pcs[0], id: id}
 	ordered := func(a *mapAccess) bool { return a.task == t.ID || a.clock <= t.vc.get(a.task) }
 	if st.write != nil && !ordered(st.write) {
 		s.reportMapRace(st.write, true, &me, write)
@@ -217,6 +233,12 @@ func (s *Sim) reportMapRace(a *mapAccess, aw bool, b *mapAccess, bw bool) {
 		if t.ID == b.task {
 			bn = t.Name
 		}
+	}
+	if s.hbVars[b.id] {
+		s.MapRaces++
+		s.Fatal(FailPanic, fmt.Sprintf("data race: task %d (%s) writes a variable shared between goroutines in %s while nothing orders that after the write by task %d (%s) in %s; one of the two updates is lost or the value is torn",
+			b.task, bn, pcSite(b.pc), a.task, an, pcSite(a.pc)))
+		return
 	}
 	msg := fmt.Sprintf("fatal error: concurrent map %s and map %s: task %d (%s) %ss a map in %s while nothing orders that after the %s by task %d (%s) in %s; the Go runtime aborts the process on such a pair",
 		kindOf(aw), kindOf(bw), b.task, bn, kindOf(bw), pcSite(b.pc), kindOf(aw), a.task, an, pcSite(a.pc))
